@@ -1574,8 +1574,7 @@ def alg_must(a):
     if k == "graph":
         return _pv(a[1]) + alg_must(a[2])
     if k == "values":
-        vs, rows = _values_cols(a)
-        return [v for i, v in enumerate(vs) if all(i < len(r) and r[i] != "U" for r in rows)]
+        return []  # UNDEF cells: nothing is guaranteed (as in Safe.lean)
     if k == "project":
         pv = _ints(a[2])
         return [v for v in alg_must(a[1]) if v in pv]
@@ -1601,8 +1600,7 @@ def alg_may(a):
     if k == "graph":
         return _pv(a[1]) + alg_may(a[2])
     if k == "values":
-        vs, rows = _values_cols(a)
-        return [v for i, v in enumerate(vs) if any(i < len(r) and r[i] != "U" for r in rows)]
+        return _ints(a[1])
     if k == "project":
         pv = _ints(a[2])
         return [v for v in alg_may(a[1]) if v in pv]
